@@ -5,6 +5,8 @@
 mod refs;
 #[path = "../../harness/common/kmodels.rs"]
 mod kmodels;
+#[path = "../../harness/common/intrinsics.rs"]
+mod intrinsics;
 
 use refs::*;
 use serde::de::IgnoredAny;
@@ -304,6 +306,122 @@ fn check_intrinsics() -> u64 {
     0
 }
 
+/// The other intrinsic models of the C17 harnesses against the real instructions of this CPU
+/// (skipped, and reported as such, if the CPU lacks the feature).
+fn check_intrinsic_models() -> (u64, Vec<&'static str>) {
+    let mut n = 0u64;
+    let mut skipped = Vec::new();
+    // small deterministic generator (xorshift) plus edge patterns
+    let mut st: u64 = 0x9E37_79B9_7F4A_7C15;
+    let mut next = move || {
+        st ^= st << 13;
+        st ^= st >> 7;
+        st ^= st << 17;
+        st
+    };
+    #[cfg(target_arch = "x86_64")]
+    unsafe {
+        use std::arch::x86_64::*;
+        let edges: [u8; 8] = [0, 1, 0x7f, 0x80, 0xff, 0x30, 0x39, 0x0f];
+        let mut vecs128: Vec<[u8; 16]> = Vec::new();
+        for e in edges {
+            vecs128.push([e; 16]);
+        }
+        for _ in 0..20000 {
+            let (a, b) = (next(), next());
+            let mut v = [0u8; 16];
+            v[..8].copy_from_slice(&a.to_le_bytes());
+            v[8..].copy_from_slice(&b.to_le_bytes());
+            vecs128.push(v);
+        }
+        for i in 0..vecs128.len() {
+            let a: __m128i = std::mem::transmute(vecs128[i]);
+            let b: __m128i = std::mem::transmute(vecs128[(i * 7 + 3) % vecs128.len()]);
+            let r: [u8; 16] = std::mem::transmute(_mm_sub_epi8(a, b));
+            let m: [u8; 16] = std::mem::transmute(intrinsics::mm_sub_epi8(a, b));
+            if r != m { die("_mm_sub_epi8 model differs".into()); }
+            let r: [u8; 16] = std::mem::transmute(_mm_madd_epi16(a, b));
+            let m: [u8; 16] = std::mem::transmute(intrinsics::mm_madd_epi16(a, b));
+            if r != m { die("_mm_madd_epi16 model differs".into()); }
+            n += 2;
+            if is_x86_feature_detected!("ssse3") {
+                let r: [u8; 16] = std::mem::transmute(ssse3_maddubs(a, b));
+                let m: [u8; 16] = std::mem::transmute(intrinsics::mm_maddubs_epi16(a, b));
+                if r != m { die("_mm_maddubs_epi16 model differs".into()); }
+                n += 1;
+            }
+            if is_x86_feature_detected!("sse4.1") {
+                let r: [u8; 16] = std::mem::transmute(sse41_packus(a, b));
+                let m: [u8; 16] = std::mem::transmute(intrinsics::mm_packus_epi32(a, b));
+                if r != m { die("_mm_packus_epi32 model differs".into()); }
+                n += 1;
+            }
+            if is_x86_feature_detected!("pclmulqdq") {
+                let r: [u8; 16] = std::mem::transmute(clmul00(a, b));
+                let m: [u8; 16] = std::mem::transmute(intrinsics::mm_clmulepi64_si128::<0>(a, b));
+                if r != m { die("_mm_clmulepi64_si128::<0> model differs".into()); }
+                let r: [u8; 16] = std::mem::transmute(clmul11(a, b));
+                let m: [u8; 16] = std::mem::transmute(intrinsics::mm_clmulepi64_si128::<0x11>(a, b));
+                if r != m { die("_mm_clmulepi64_si128::<0x11> model differs".into()); }
+                n += 2;
+            }
+            if is_x86_feature_detected!("avx2") {
+                let mut x = [0u8; 32];
+                x[..16].copy_from_slice(&vecs128[i]);
+                x[16..].copy_from_slice(&vecs128[(i * 5 + 1) % vecs128.len()]);
+                let mut y = [0u8; 32];
+                y[..16].copy_from_slice(&vecs128[(i * 3 + 2) % vecs128.len()]);
+                y[16..].copy_from_slice(&vecs128[(i * 11 + 5) % vecs128.len()]);
+                let va: __m256i = std::mem::transmute(x);
+                let vb: __m256i = std::mem::transmute(y);
+                let r: [u8; 32] = std::mem::transmute(avx2_shuffle(va, vb));
+                let m: [u8; 32] = std::mem::transmute(intrinsics::mm256_shuffle_epi8(va, vb));
+                if r != m { die("_mm256_shuffle_epi8 model differs".into()); }
+                let r: [u8; 32] = std::mem::transmute(avx2_max(va, vb));
+                let m: [u8; 32] = std::mem::transmute(intrinsics::mm256_max_epu8(va, vb));
+                if r != m { die("_mm256_max_epu8 model differs".into()); }
+                n += 2;
+            }
+        }
+        if !is_x86_feature_detected!("ssse3") { skipped.push("ssse3 (_mm_maddubs_epi16)"); }
+        if !is_x86_feature_detected!("sse4.1") { skipped.push("sse4.1 (_mm_packus_epi32)"); }
+        if !is_x86_feature_detected!("pclmulqdq") { skipped.push("pclmulqdq (_mm_clmulepi64_si128)"); }
+        if !is_x86_feature_detected!("avx2") { skipped.push("avx2 (_mm256_shuffle_epi8, _mm256_max_epu8)"); }
+    }
+    (n, skipped)
+}
+
+#[cfg(target_arch = "x86_64")]
+#[target_feature(enable = "ssse3")]
+unsafe fn ssse3_maddubs(a: std::arch::x86_64::__m128i, b: std::arch::x86_64::__m128i) -> std::arch::x86_64::__m128i {
+    std::arch::x86_64::_mm_maddubs_epi16(a, b)
+}
+#[cfg(target_arch = "x86_64")]
+#[target_feature(enable = "sse4.1")]
+unsafe fn sse41_packus(a: std::arch::x86_64::__m128i, b: std::arch::x86_64::__m128i) -> std::arch::x86_64::__m128i {
+    std::arch::x86_64::_mm_packus_epi32(a, b)
+}
+#[cfg(target_arch = "x86_64")]
+#[target_feature(enable = "pclmulqdq")]
+unsafe fn clmul00(a: std::arch::x86_64::__m128i, b: std::arch::x86_64::__m128i) -> std::arch::x86_64::__m128i {
+    std::arch::x86_64::_mm_clmulepi64_si128::<0>(a, b)
+}
+#[cfg(target_arch = "x86_64")]
+#[target_feature(enable = "pclmulqdq")]
+unsafe fn clmul11(a: std::arch::x86_64::__m128i, b: std::arch::x86_64::__m128i) -> std::arch::x86_64::__m128i {
+    std::arch::x86_64::_mm_clmulepi64_si128::<0x11>(a, b)
+}
+#[cfg(target_arch = "x86_64")]
+#[target_feature(enable = "avx2")]
+unsafe fn avx2_shuffle(a: std::arch::x86_64::__m256i, b: std::arch::x86_64::__m256i) -> std::arch::x86_64::__m256i {
+    std::arch::x86_64::_mm256_shuffle_epi8(a, b)
+}
+#[cfg(target_arch = "x86_64")]
+#[target_feature(enable = "avx2")]
+unsafe fn avx2_max(a: std::arch::x86_64::__m256i, b: std::arch::x86_64::__m256i) -> std::arch::x86_64::__m256i {
+    std::arch::x86_64::_mm256_max_epu8(a, b)
+}
+
 fn check_repo_samples() -> u64 {
     // inputs taken from the repository's own tests (src/serde/mod.rs, src/value/node.rs, lazyvalue tests)
     let ok = [
@@ -347,5 +465,10 @@ fn main() {
     n += check_line_col();
     n += check_container_end(if quick { 5 } else { 6 });
     n += check_intrinsics();
+    let (ni, skipped) = check_intrinsic_models();
+    n += ni;
+    if !skipped.is_empty() {
+        println!("selftest note: CPU lacks {:?}; those intrinsic models were not validated on this machine", skipped);
+    }
     println!("selftest ok: {} comparisons against serde_json/std/CPU in {:.1}s", n, t.elapsed().as_secs_f64());
 }
